@@ -332,6 +332,108 @@ from tverif.engine import repeatable
 repeatable((FO, "number_operator_list"), (FO, "spinz_operator_list"), (FO, "spin2_operator_list"), (FO, "number_operator"), (FO, "spinz_operator"), (FO, "spin2_operator"),
            (PT, "number_operator_penalty"), (PT, "spin_operator_penalty"), (PT, "spin2_operator_penalty"), (PT, "combined_penalty"))
 
+# ---------------------------------------------------------------------------------------------------------------------
+# P1  the operator lists for EVERY number of orbitals (symbolic integer; loops over range(n_orbs) cut on generic indices)
+
+from tverif.engine import GhostList
+from tverif.interp import GhostIterable
+from fractions import Fraction as _Fr
+
+
+class _ListLoop(GhostIterable):
+    """loop that only extends the local list `all_terms`"""
+    managed = ("all_terms",)
+
+    def __init__(self, h, name):
+        self.h, self.index_name = h, name
+        self.before_inner = None
+
+    def init(self, interp, env):
+        self.entry = env.lookup("all_terms")
+
+    def havoc(self, interp, env):
+        self.acc = GhostList("all_terms")
+        env.assign("all_terms", self.acc)
+
+    def step(self, interp, env, broke):
+        self.h.check("the loop does not stop early", not broke)
+        self.final = env.lookup("all_terms")
+
+
+def _spin_orbitals(n, i, utd):
+    return (i, i + n) if utd else (2 * i, 2 * i + 1)
+
+
+def _same_terms(h, got, want, tag):
+    """got: list of [term, weight] produced by the code (indices may be symbolic); want: the specified list"""
+    h.check(tag + ": number of terms", len(got) == len(want), detail=f"{len(got)} vs {len(want)}")
+    if len(got) != len(want):
+        return
+    for k, (g, w) in enumerate(zip(got, want)):
+        gt, gw = g
+        wt, ww = w
+        h.check(tag + f": term {k} has the specified ladder pattern", len(gt) == len(wt) and all(a[1] == b[1] for a, b in zip(gt, wt)))
+        h.check_close(tag + f": weight of term {k}", gw, ww)
+        if len(gt) == len(wt):
+            for m, (a, b) in enumerate(zip(gt, wt)):
+                h.check_close(tag + f": spin-orbital of factor {m} of term {k}", a[0], b[0])
+
+
+@contract("C12", "P1.operator_lists.any_number_of_orbitals", level="P", max_paths=60,
+          structures=lambda tier: [{"op": o, "utd": u} for o in ("number", "spinz", "spin2") for u in (False, True)],
+          targets=[(FO, "number_operator_list"), (FO, "spinz_operator_list"), (FO, "spin2_operator_list"), (GU, "get_spin_ordered")])
+def p1(h, st):
+    """for EVERY number of orbitals n >= 1 (symbolic integer) and a generic orbital i (and a generic second orbital j) of the loops: the number / Sz lists contribute exactly
+    (a_u^dag a_u, 1 | 1/2), (a_d^dag a_d, 1 | -1/2) for orbital i, with u(i) = i (up_then_down) or 2 i and d(i) = i + n or 2 i + 1; the S^2 list contributes, for every ORDERED pair
+    (i, j) - the diagonal i == j from the outer loop, every j != i from the inner loop - the six-term pattern of s_i . s_j = Sz_i Sz_j + 1/2 (S+_i S-_j + S-_i S+_j) on the spin-orbitals
+    (u(i), d(i), u(j), d(j)) (that this pattern IS s_i . s_j is the exact-matrix contract O3 on two orbitals); u and d are injective with disjoint images inside [0, 2n). By induction
+    over the loops: N = sum_i (n_u + n_d), Sz = 1/2 sum_i (n_u - n_d), S^2 = sum_{i,j} s_i . s_j for every register size"""
+    if not h.symbolic:
+        h.check("native: covered by O2 / O3", True)
+        h.done()
+        return
+    n = h.integer("n_orbs")
+    h.assume(n >= 1)
+    utd = st["utd"]
+    outer = _ListLoop(h, "i")
+    inner = _ListLoop(h, "j")
+    h.I.range_protocols = [outer, inner]
+    fn = {"number": "number_operator_list", "spinz": "spinz_operator_list", "spin2": "spin2_operator_list"}[st["op"]]
+    out = h.call(FO, fn, n, utd)
+    i = outer.index
+    u, d = _spin_orbitals(n, i, utd)
+    h.check("the list accumulated by the loop is returned", out is outer.final)
+    if st["op"] in ("number", "spinz"):
+        w = (1, 1) if st["op"] == "number" else (_Fr(1, 2), _Fr(-1, 2))
+        _same_terms(h, outer.acc.appended, [[((u, 1), (u, 0)), w[0]], [((d, 1), (d, 0)), w[1]]], "orbital i")
+    else:
+        def six(a_u, a_d, b_u, b_d):
+            return [[((a_u, 1), (a_u, 0), (b_u, 1), (b_u, 0)), _Fr(1, 4)], [((a_d, 1), (a_d, 0), (b_d, 1), (b_d, 0)), _Fr(1, 4)],
+                    [((a_u, 1), (a_u, 0), (b_d, 1), (b_d, 0)), _Fr(-1, 4)], [((a_d, 1), (a_d, 0), (b_u, 1), (b_u, 0)), _Fr(-1, 4)],
+                    [((a_u, 1), (a_d, 0), (b_d, 1), (b_u, 0)), _Fr(1, 2)], [((a_d, 1), (a_u, 0), (b_u, 1), (b_d, 0)), _Fr(1, 2)]]
+        _same_terms(h, outer.acc.appended, six(u, d, u, d), "diagonal pair (i, i)")
+        h.shape("the inner loop over the second orbital was entered", hasattr(inner, "index"))
+        j = inner.index
+        u2, d2 = _spin_orbitals(n, j, utd)
+        if inner.acc.appended:
+            h.check("a pair is contributed by the inner loop only for j != i", ~(i == j))
+            _same_terms(h, inner.acc.appended, six(u, d, u2, d2), "pair (i, j)")
+        else:
+            h.check("no contribution of the inner loop only for j == i", i == j)
+    # index maps: injective, disjoint images, inside [0, 2n)
+    a, b = h.integer("a"), h.integer("b")
+    for x in (a, b):
+        h.assume(x >= 0)
+        h.assume(x < n)
+    ua, da = _spin_orbitals(n, a, utd)
+    ub, db = _spin_orbitals(n, b, utd)
+    h.check("u injective", (~(ua == ub)) | (a == b))
+    h.check("d injective", (~(da == db)) | (a == b))
+    h.check("images of u and d disjoint", ~(ua == db))
+    h.check("images inside [0, 2 n)", (ua >= 0) & (ua < 2 * n) & (da >= 0) & (da < 2 * n))
+    h.done()
+
+
 PROPERTY = {
     "level": "other",
     "explanation": "N and Sz act with the physical eigenvalues on every determinant and S^2 equals S_-S_+ + Sz^2 + Sz (exact rational matrices built from the AST of the "
